@@ -21,6 +21,10 @@ def main():
         env = dict(os.environ, PYTHONHASHSEED="0", TZ="UTC", PYTHONDONTWRITEBYTECODE="1")
         os.execve(sys.executable, [sys.executable, "-B", "-m", "vmc"] + sys.argv[1:], env)
     os.environ["TZ"] = "UTC"
+    import faulthandler
+    import signal
+
+    faulthandler.register(signal.SIGUSR1, all_threads=True)   # kill -USR1 <pid> dumps the Python stack
     base = "/dev/shm" if os.path.isdir("/dev/shm") and os.access("/dev/shm", os.W_OK) else None
     scratch = tempfile.mkdtemp(prefix="vmc_", dir=base)
     os.environ["TMPDIR"] = scratch
